@@ -109,6 +109,12 @@ def check_history(col, hist, queries, forms):
             col.violation("iter", fn + ".__iter__", list(hist) + (["<iterated before, then re-added %s>" % hist[-1]] if again else []), repr(r), exp)
         if hist:
             call(s.add, hist[-1])
+    # a URL without hostname matches nothing, whatever was added
+    for url in ("", "http://", "/path/only", "?q=1", "http:///x"):
+        r = call(s.match, url)
+        col.count("match-hostless")
+        if r != ("ok", False):
+            col.violation("match", fn + ".match", {"adds": list(hist), "url": url}, repr(r), False)
     for i, q in enumerate(queries):
         exp = ref_match(added, q)
         for form in forms:
